@@ -6,16 +6,45 @@ A case is [serial0, [event, ...]] (encoding in coq/Model/OpsC08.v).  The real cl
 driven over a fake transport with a task.Clock as reactor; replies are fed as raw bytes
 built with MethodReturnMessage / ErrorMessage(...).rawMessage (the harness plays the
 remote peer, so building them must not consume local serials: the process-wide counter
-is saved and restored around it)."""
+is saved and restored around it).
+
+Extended case forms (all JSON-serialisable):
+  [serial0, events, {"cb": m}]   what the harness's own callbacks on the returned Deferreds hand back to the
+                                 rest of their chain: 0 None, 1 a value, 2 a Deferred that has not fired
+  call event with a 5th element  [0, kind, timeout, retsig, {"raw": 1, "then": [event, ...]}]
+                                 raw: the call is made with the public pair MethodCallMessage(...) +
+                                 callRemoteMessage(msg, timeout) (the harness keeps the message object);
+                                 then: events the caller performs from inside the completion callback of
+                                 this call (further calls, a re-send, loss of the connection)
+  [5, ref, timeout, {"then": ...}]  the message object of call number ref (None: the call whose completion
+                                 callback is running) is sent again with callRemoteMessage; legal only once
+                                 the previous call with that serial has completed
+A history with continuations is judged against the existing model / specification on its FLATTENING: the events
+of a continuation are placed directly after the event that ends the owning call, and a re-sent message is an
+ordinary new call (the model gives it a fresh serial; reply serials are translated, see Plan)."""
 import itertools
 
 from harness import common
 
 ASSUMPTIONS = [
-    'user callbacks on the returned Deferreds are passive observers: they record the completion and do not '
-    'call back into the connection (a callback that issues a new call from inside connectionLost makes the '
-    'loop over _pendingCalls raise "dictionary changed size during iteration"; that reentrancy is outside '
-    'the histories quantified over here and is reported separately)',
+    'user callbacks on the returned Deferreds record the completion; in the continuation families they also call '
+    'back into the connection from inside the completion callback (new calls, the same MethodCallMessage sent '
+    'again with callRemoteMessage once its previous call has completed, connectionLost delivered synchronously '
+    'as in-memory transports do).  Such a history is judged as its flattening: the continuation placed directly '
+    'after the event that ends the owning call; the flattening is computed in Python from the property text '
+    '(a call is ended by the first return / error reply carrying its serial, its deadline, or the loss) and then '
+    'given to the Coq model and specification.  Continuations are not run for calls ended by the loss of the '
+    'connection (a callback that issues a new call from inside connectionLost makes the loop over _pendingCalls '
+    'raise "dictionary changed size during iteration"; that reentrancy is reported separately), and no data or '
+    'timer is delivered from inside a callback',
+    'what a user callback returns to the rest of its own Deferred chain (None, a value, an unfired Deferred) is '
+    'no input of the model: by the property no completion of one call may reach another call, so every case is '
+    'judged by the same model answer whatever the callbacks return',
+    'a call made with callRemoteMessage completes with the reply message itself; the harness reads its public '
+    'signature / body attributes and applies the documented convention (no value None, one non-struct value that '
+    'value, else the list) before comparing with the model outcome for an undeclared return signature',
+    'within one top-level event of a history with continuations only the set of completions, and _pendingCalls / '
+    'timers after the whole event, are compared (not the state seen from inside a callback)',
     'the connection has completed authentication and Hello (busName set) before the history starts; '
     'loss before that point belongs to C09',
     'replies are well-formed messages whose signature and body agree (codec and parser: C01-C03, C05); '
@@ -71,11 +100,12 @@ class Impl:
         from twisted.internet import task
         from twisted.internet import error as terror
         from twisted.python import failure
+        from twisted.internet import defer
         import txdbus.client
         import txdbus.protocol
         from txdbus import message, error
         txdbus.protocol._is_linux = False
-        self.task, self.terror, self.failure = task, terror, failure
+        self.task, self.terror, self.failure, self.defer = task, terror, failure, defer
         self.client, self.message, self.error = txdbus.client, message, error
         self.rawcache = {}
 
@@ -169,22 +199,200 @@ INVALID_CALLS = [
 ]
 
 
-def run_impl(im, case):
-    """-> (steps, fault) ; step = [completions sorted by call id, pending serials, timer serials]"""
-    s0, events = case
+# --------------------------------------------------------------------------
+# histories with continuations: flattening (computed from the property text, independent of the implementation)
+def clone(x):
+    if isinstance(x, (list, tuple)):
+        return [clone(e) for e in x]
+    if isinstance(x, dict):
+        return {k: clone(v) for k, v in x.items()}
+    return x
+
+
+def ext_of(e):
+    if e[0] == 0 and len(e) > 4 and e[4]:
+        return e[4]
+    if e[0] == 5 and len(e) > 3 and e[3]:
+        return e[3]
+    return {}
+
+
+def is_nested(events):
+    return any(e[0] == 5 or (e[0] == 0 and len(e) > 4) for e in events)
+
+
+class Plan:
+    """events: private copy of the case's events; flat: the history given to the model; group[k]: index of the
+    top-level event during which flat event k happens; at[id(node)]: flat index of an event node;
+    wire_of[model serial] = serial on the wire (they differ once a message has been sent again: the model numbers
+    every call afresh); ordinal / timeouts / due: plan_timers of the flat history"""
+
+
+def make_plan(case):
+    s0 = case[0]
+    pl = Plan()
+    pl.cb = (case[2] or {}).get('cb', 0) if len(case) > 2 else 0
+    pl.nested = is_nested(case[1])
+    pl.reissues = 0
+    if not pl.nested:
+        pl.events = pl.flat = case[1]
+        pl.group = pl.at = pl.wire_of = None        # flat index = position
+    else:
+        pl.events = clone(case[1])                   # event nodes are told apart by identity
+        if s0 < 1:
+            raise ValueError('bad event: continuation histories need a first serial >= 1')
+        flat, group, at, wire_of = [], [], {}, {}
+        latest = {}          # wire serial -> model serial of the latest call sent with it
+        opened = {}          # model serial of an open call -> (call id, has deadline, continuation)
+        calls = []           # call id -> description
+        nxt = {'wire': s0, 'model': s0}
+
+        def note(e, fe, top):
+            at[id(e)] = len(flat)
+            flat.append(fe)
+            group.append(top)
+
+        def ended(m, top):
+            cid, _, then = opened.pop(m)
+            run_then(then, top, cid)
+
+        def run_then(then, top, owner):
+            for e2 in then:
+                if e2[0] not in (0, 4, 5):
+                    raise ValueError('bad event: only calls, re-sends and loss may happen inside a callback')
+                do(e2, top, owner)
+
+        def register(e, kind, tmo, top, wire, raw):
+            m = nxt['model']
+            nxt['model'] += 1
+            if m > MAXS or wire > MAXS:
+                raise ValueError('bad event: continuation histories stay below 2^32')
+            cid = len(calls)
+            calls.append({'kind': kind, 'wire': wire, 'model': m, 'raw': raw})
+            latest[wire] = m
+            wire_of[m] = wire
+            then = ext_of(e).get('then', [])
+            if kind == 0:
+                opened[m] = (cid, bool(tmo) and tmo[0] != 0, then)
+            else:
+                run_then(then, top, cid)          # completes at once: the callback runs as soon as it is added
+
+        def do(e, top, owner):
+            k = e[0]
+            if k == 0:
+                kind, tmo, rs = e[1], e[2], e[3]
+                raw = bool(ext_of(e).get('raw'))
+                if raw and (kind == 2 or rs):
+                    raise ValueError('bad event: a raw call is buildable and declares no return signature')
+                note(e, [0, kind, tmo, rs], top)
+                if kind == 2:
+                    cid = len(calls)
+                    calls.append({'kind': 2})
+                    run_then(ext_of(e).get('then', []), top, cid)
+                    return
+                wire = nxt['wire']
+                nxt['wire'] += 1
+                register(e, kind, tmo, top, wire, raw)
+            elif k == 5:
+                ref = owner if e[1] is None else e[1]
+                if ref is None or not 0 <= ref < len(calls) or not calls[ref].get('raw'):
+                    raise ValueError('bad event: re-send of something that is not a raw call')
+                c = calls[ref]
+                if latest[c['wire']] in opened:
+                    raise ValueError('bad event: message sent again while its previous call is outstanding')
+                pl.reissues += 1
+                note(e, [0, c['kind'], e[2], []], top)
+                register(e, c['kind'], e[2], top, c['wire'], True)
+            elif k in (1, 2):
+                m = latest.get(e[1], 0)           # serial 0 is never a call
+                note(e, [k, m] + e[2:], top)
+                if m in opened:
+                    ended(m, top)
+            elif k == 3:
+                m = latest.get(e[1], 0)
+                note(e, [3, m], top)
+                if m in opened and opened[m][1]:
+                    ended(m, top)
+            elif k == 4:
+                note(e, [4, e[1]], top)
+                opened.clear()                    # ended by the loss: continuations are not run
+            else:
+                raise ValueError('bad event %r' % (e,))
+
+        for i, e in enumerate(pl.events):
+            do(e, i, None)
+        pl.flat, pl.group, pl.at, pl.wire_of = flat, group, at, wire_of
+    pl.ordinal, pl.timeouts, pl.due = plan_timers(s0, pl.flat)
+    return pl
+
+
+def convention(mret):
+    """the documented delivery convention, applied to the reply message a callRemoteMessage call completes with"""
+    if mret is None:
+        return None
+    body, sig = mret.body, mret.signature
+    if not body:
+        return None
+    if len(body) == 1 and not str(sig).startswith('('):
+        return body[0]
+    return body
+
+
+def run_impl(im, case, pl=None):
+    """-> (steps, fault) ; step = [completions sorted by call id, pending serials, timer serials] per top-level
+    event"""
+    s0 = case[0]
+    if pl is None:
+        pl = make_plan(case)
+    events = pl.events
     p, clock = im.connect()
     im.message.DBusMessage._nextSerial = s0
-    ordinal, timeouts, due = plan_timers(s0, events)
+    ordinal, timeouts, due = pl.ordinal, pl.timeouts, pl.due
     reasons = {}
     done = []
-    ncalls = 0
+    ncalls = [0]
+    msgs = {}
+    ran = set()
     steps = []
     faults = []
+    defer = im.defer
 
-    def on_ok(v, cid):
+    returned = []
+    unfired = []
+    closed = []
+
+    def handed_back(cid):
+        if pl.cb == 1:
+            return 'result of the callback of call %d' % cid
+        if pl.cb == 2:
+            unfired.append(defer.Deferred())
+            return unfired[-1]
+        return None
+
+    def continuation(cid, then):
+        if then and cid not in ran:
+            ran.add(cid)
+            for e2 in then:
+                try:
+                    perform(e2, cid)
+                except Exception as ex:
+                    if isinstance(ex, ValueError) and 'bad event' in str(ex):
+                        raise
+                    faults.append('exc:' + type(ex).__name__)
+
+    def on_ok(v, cid, then, raw):
+        if closed:
+            return None
+        if raw:
+            v = convention(v)
         done.append([cid, [0, [] if v is None else [canon_val(v)]]])
+        continuation(cid, then)
+        return handed_back(cid)
 
-    def on_err(f, cid):
+    def on_err(f, cid, then):
+        if closed:
+            return None
+        lost = False
         if f.check(im.error.RemoteError):
             e = f.value
             vals = getattr(e, 'values', None)
@@ -196,53 +404,81 @@ def run_impl(im, case):
             for r, fr in reasons.items():
                 if f is fr:
                     done.append([cid, [4, r]])
+                    lost = True
                     break
             else:
                 done.append([cid, [5]])
+        if not lost:
+            continuation(cid, then)
+        return handed_back(cid)
+
+    def perform(e, owner, i=None):
+        if i is None:
+            i = pl.at.get(id(e), 0)
+        if e[0] == 0 or e[0] == 5:
+            x = ext_of(e)
+            then = x.get('then', [])
+            cid = ncalls[0]
+            ncalls[0] += 1
+            if e[0] == 5 or x.get('raw'):
+                if e[0] == 5:
+                    ref = owner if e[1] is None else e[1]
+                    m = msgs[ref]
+                else:
+                    m = im.message.MethodCallMessage('/obj', 'M%d' % (i % 3), interface='org.x.I',
+                                                     destination='org.x.Dest', expectReply=e[1] != 1)
+                msgs[cid] = m
+                if timeouts.get(i) is not None:
+                    d = p.callRemoteMessage(m, timeouts[i])
+                else:
+                    d = p.callRemoteMessage(m)
+                returned.append(d)
+                d.addCallbacks(on_ok, on_err, callbackArgs=(cid, then, True), errbackArgs=(cid, then))
+                return
+            kind, rs = e[1], e[3]
+            kw = {}
+            if rs == [0]:
+                kw['returnSignature'] = None
+            elif rs:
+                kw['returnSignature'] = rs[1]
+            if kind == 2:
+                kw.update(INVALID_CALLS[i % len(INVALID_CALLS)])
+            else:
+                kw.update(objectPath='/obj', methodName='M%d' % (i % 3), interface='org.x.I',
+                          destination='org.x.Dest')
+                if i % 2:
+                    kw.update(signature='s', body=['arg'])
+                if kind == 1:
+                    kw['expectReply'] = False
+            if timeouts.get(i) is not None:
+                kw['timeout'] = timeouts[i]
+            elif e[2]:
+                kw['timeout'] = 7      # invalid call with a timeout
+            d = p.callRemote(**kw)
+            returned.append(d)
+            d.addCallbacks(on_ok, on_err, callbackArgs=(cid, then, False), errbackArgs=(cid, then))
+        elif e[0] == 1:
+            p.dataReceived(im.raw(1, e[1], None, e[2]))
+        elif e[0] == 2:
+            p.dataReceived(im.raw(2, e[1], e[2], e[3]))
+        elif e[0] == 3:
+            t = ordinal[i] + 1
+            before = len(done)
+            clock.advance(t - 0.25 - clock.seconds())
+            if len(done) != before:
+                faults.append('fired-early')
+            clock.advance(t - clock.seconds())
+        elif e[0] == 4:
+            fr = im.failure.Failure(im.terror.ConnectionDone('lost %d' % e[1]))
+            reasons[e[1]] = fr
+            p.connectionLost(fr)
+        else:
+            raise ValueError('bad event %r' % (e,))
 
     for i, e in enumerate(events):
         before = len(done)
         try:
-            if e[0] == 0:
-                kind, rs = e[1], e[3]
-                kw = {}
-                if rs == [0]:
-                    kw['returnSignature'] = None
-                elif rs:
-                    kw['returnSignature'] = rs[1]
-                if kind == 2:
-                    kw.update(INVALID_CALLS[i % len(INVALID_CALLS)])
-                else:
-                    kw.update(objectPath='/obj', methodName='M%d' % (i % 3), interface='org.x.I',
-                              destination='org.x.Dest')
-                    if i % 2:
-                        kw.update(signature='s', body=['arg'])
-                    if kind == 1:
-                        kw['expectReply'] = False
-                if timeouts.get(i) is not None:
-                    kw['timeout'] = timeouts[i]
-                elif e[2]:
-                    kw['timeout'] = 7      # invalid call with a timeout
-                d = p.callRemote(**kw)
-                cid = ncalls
-                ncalls += 1
-                d.addCallbacks(on_ok, on_err, callbackArgs=(cid,), errbackArgs=(cid,))
-            elif e[0] == 1:
-                p.dataReceived(im.raw(1, e[1], None, e[2]))
-            elif e[0] == 2:
-                p.dataReceived(im.raw(2, e[1], e[2], e[3]))
-            elif e[0] == 3:
-                t = ordinal[i] + 1
-                clock.advance(t - 0.25 - clock.seconds())
-                if len(done) != before:
-                    faults.append('fired-early')
-                clock.advance(t - clock.seconds())
-            elif e[0] == 4:
-                fr = im.failure.Failure(im.terror.ConnectionDone('lost %d' % e[1]))
-                reasons[e[1]] = fr
-                p.connectionLost(fr)
-            else:
-                raise ValueError('bad event %r' % (e,))
+            perform(e, None, None if pl.nested else i)
         except Exception as ex:     # an exception escaping the library code
             if isinstance(ex, ValueError) and 'bad event' in str(ex):
                 raise
@@ -251,7 +487,35 @@ def run_impl(im, case):
         pend = sorted(p._pendingCalls)
         tims = sorted(due.get(dc.getTime(), -1 - j) for j, dc in enumerate(clock.getDelayedCalls()))
         steps.append([new, pend, tims])
+    # the history is over and observed: the caller lets go of every Deferred it was given (what it handed back
+    # fires with None, every chain ends with None), so that no case depends on the one evaluated before it
+    closed.append(1)
+    try:
+        for d in unfired:
+            d.callback(None)
+        for d in returned:
+            d.addBoth(lambda _: None)
+    except Exception:
+        pass
     return steps, faults
+
+
+def regroup(msteps, pl):
+    """the model's observations after each flat event -> one per top-level event, serials as on the wire"""
+    if not pl.nested:
+        return msteps
+    out = []
+    for fi, st in enumerate(msteps):
+        if pl.group[fi] == len(out):
+            out.append([list(st[0]), st[1], st[2]])
+        else:
+            out[-1][0] += st[0]
+            out[-1][1], out[-1][2] = st[1], st[2]
+    for st in out:
+        st[0].sort(key=lambda c: c[0])
+        st[1] = sorted(pl.wire_of[m] for m in st[1])
+        st[2] = sorted(st[2])
+    return out
 
 
 def same_outcome(impl, model):
@@ -277,24 +541,33 @@ def same_steps(impl, model):
 def evaluate(ctx, cases, res):
     im = Impl()
     cases = list(cases)
-    lines = ['(8 %d %s)' % (c[0], common.dump(c[1])) for c in cases]
+    plans = [make_plan(c) for c in cases]
+    lines = ['(8 %d %s)' % (c[0], common.dump(pl.flat)) for c, pl in zip(cases, plans)]
     outs = common.run_model(lines)
     dist = {'events': 0, 'calls': {}, 'kinds': {'return': 0, 'error': 0, 'timer': 0, 'lost': 0, 'call': 0},
-            'outcomes': {}, 'max_concurrent': 0}
+            'outcomes': {}, 'max_concurrent': 0,
+            'callbacks_hand_back': {'none': 0, 'value': 0, 'unfired-deferred': 0},
+            'continuations': {'histories': 0, 'events_inside_callbacks': 0, 'messages_sent_again': 0}}
     names = {0: 'value', 1: 'remote-error', 2: 'signature-mismatch', 3: 'timeout', 4: 'lost', 5: 'failed'}
     kn = {0: 'call', 1: 'return', 2: 'error', 3: 'timer', 4: 'lost'}
     saved = im.message.DBusMessage._nextSerial
     try:
-        for c, o in zip(cases, outs):
+        for c, o, pl in zip(cases, outs, plans):
             if o == [-1]:
                 raise RuntimeError('model rejected input %r' % (c,))
             msteps, spec, mfault = o
-            isteps, ifaults = run_impl(im, c)
-            ncalls = sum(1 for e in c[1] if e[0] == 0)
-            res.count(c, nontrivial=ncalls > 0 and len(c[1]) > ncalls)
-            dist['events'] += len(c[1])
+            msteps = regroup(msteps, pl)
+            isteps, ifaults = run_impl(im, c, pl)
+            ncalls = sum(1 for e in pl.flat if e[0] == 0)
+            res.count(c, nontrivial=ncalls > 0 and len(pl.flat) > ncalls)
+            dist['events'] += len(pl.flat)
             dist['calls'][ncalls] = dist['calls'].get(ncalls, 0) + 1
-            for e in c[1]:
+            dist['callbacks_hand_back'][['none', 'value', 'unfired-deferred'][pl.cb]] += 1
+            if pl.nested:
+                dist['continuations']['histories'] += 1
+                dist['continuations']['events_inside_callbacks'] += len(pl.flat) - len(pl.events)
+                dist['continuations']['messages_sent_again'] += pl.reissues
+            for e in pl.flat:
                 dist['kinds'][kn[e[0]]] += 1
             for st in isteps:
                 dist['max_concurrent'] = max(dist['max_concurrent'], len(st[1]))
@@ -309,6 +582,10 @@ def evaluate(ctx, cases, res):
             # oracle: implementation vs specification
             sc, sopen, sdead, _ = spec
             icomp = [x for st in isteps for x in st[0]]
+            if pl.nested:       # per call: what it completed with, how often; serials as on the wire
+                icomp = sorted(icomp, key=lambda x: x[0])
+                sc = sorted(sc, key=lambda x: x[0])
+                sopen = [pl.wire_of[m] for m in sopen]
             if ifaults:
                 res.violate(c, 'an exception escaped the library or a timer fired early: %r' % (ifaults,),
                             'exception-or-early-timer')
@@ -457,8 +734,166 @@ class Gen:
                         yield [s0, evs + list(t)]
                         yield [s0, evs[:2] + list(t[:1]) + evs[2:] + list(t[1:])]
 
+    # F. what the caller's own callbacks hand back to the rest of their chain (a value, an unfired Deferred):
+    #    calls of every kind one after the other, the answers directly after each call or at the end
+    def handed_back(self):
+        rng = self.rng
+        for cb in (1, 2):
+            for n in (1, 2, 3):
+                for ks in itertools.product((0, 1, 2), repeat=n):
+                    for layout in (0, 1):
+                        s0 = rng.choice([2, 7, 300])
+                        evs, tail, ser = [], [], s0
+                        for k in ks:
+                            evs.append(self.call(rng.random() < 0.5, k))
+                            if k == 0:
+                                (evs if layout else tail).append(self.ev(rng.choice('RRE'), ser))
+                            if k != 2:
+                                ser += 1
+                        yield [s0, evs + tail, {'cb': cb}]
+
+    # G. callers that come back into the connection from inside a completion callback
+    def then_call(self, deadline, then, kind=0):
+        return self.call(deadline, kind) + [{'then': then}]
+
+    def raw_call(self, deadline, then=None, kind=0):
+        x = {'raw': 1}
+        if then:
+            x['then'] = then
+        return [0, kind, [self.rng.choice([1, 5, 30])] if deadline else [], [], x]
+
+    def resend(self, deadline, then=None, ref=None):
+        return [5, ref, [self.rng.choice([1, 5, 30])] if deadline else [], {'then': then} if then else {}]
+
+    # G1. poll / retry: one MethodCallMessage sent again and again (same serial), each time after the previous call
+    #     with it has ended by return / error / expiry - from inside that call's callback, or afterwards
+    def resend_chains(self, maxdepth, control_depth):
+        rng = self.rng
+        links = [(d, t) for d in (0, 1) for t in ('RET' if d else 'RE')]
+        for depth in range(1, maxdepth + 1):
+            for chain in itertools.product(links, repeat=depth):
+                for last in ((0, None), (1, None), (1, 'T'), (0, 'R')):
+                    for by in (0, 1):
+                        for inside in ((1, 0) if depth <= control_depth else (1,)):
+                            s0 = rng.choice([2, 6, 500])
+                            evs, w = [], s0
+                            if by:
+                                evs.append(self.call(1))
+                                w = s0 + 1
+                            if inside:
+                                node = self.resend(last[0])
+                                for d, _ in reversed(chain[1:]):
+                                    node = self.resend(d, [node])
+                                evs.append(self.raw_call(chain[0][0], [node]))
+                                for _, t in chain:
+                                    evs.append(self.ev(t, w))
+                            else:
+                                evs.append(self.raw_call(chain[0][0]))
+                                for j, (_, t) in enumerate(chain):
+                                    evs.append(self.ev(t, w))
+                                    nd = chain[j + 1][0] if j + 1 < len(chain) else last[0]
+                                    evs.append(self.resend(nd, None, by))
+                            if last[1]:
+                                evs.append(self.ev(last[1], w))
+                            if rng.random() < 0.5:
+                                evs.append(self.ev('R', w))
+                            if by:
+                                evs.append(self.ev(rng.choice('RET'), s0))
+                            yield [s0, evs]
+
+    # G2. sequencing: the callback of a call issues further calls of every kind, one of which does the same
+    def chained(self):
+        rng = self.rng
+        for t0 in 'RET':
+            for n in (1, 2):
+                for inner in itertools.product((0, 1, 2), repeat=n):
+                    for deeper in (0, 1):
+                        for rev in (0, 1):
+                            s0 = rng.choice([3, 40, 900])
+                            w = s0 + 1
+                            normal, then = [], []
+                            for k in inner:
+                                if k == 0 and deeper and not normal:
+                                    then.append(self.then_call(rng.random() < 0.5, [self.call(rng.random() < 0.5)]))
+                                elif k == 1 and deeper and rng.random() < 0.5:
+                                    then.append(self.then_call(0, [self.call(0, 1)], 1))
+                                    w += 1
+                                else:
+                                    then.append(self.call(rng.random() < 0.5, k))
+                                if k == 0:
+                                    normal.append(w)
+                                if k != 2:
+                                    w += 1
+                            evs = [self.then_call(t0 == 'T' or rng.random() < 0.5, then), self.ev(t0, s0)]
+                            tail = [self.ev(rng.choice('RRET'), x) for x in normal]
+                            if rev:
+                                tail.reverse()
+                            if deeper and normal:
+                                tail.append(self.ev(rng.choice('RE'), w))
+                            yield [s0, evs + tail]
+
+    # G3. the connection is lost synchronously from inside a completion callback (in-memory transports)
+    def loss_inside(self):
+        rng = self.rng
+        for n in (1, 2, 3):
+            for owner in range(n):
+                for t in 'RET':
+                    for dl in itertools.product((0, 1), repeat=n):
+                        if t == 'T' and not dl[owner]:
+                            continue
+                        s0 = rng.choice([2, 11, 2000])
+                        evs = []
+                        for i in range(n):
+                            if i == owner:
+                                evs.append(self.then_call(dl[i], [self.ev('L', 0)]))
+                            else:
+                                evs.append(self.call(dl[i]))
+                        evs.append(self.ev(t, s0 + owner))
+                        for i in range(n):
+                            if i != owner:
+                                evs.append(self.ev(rng.choice('RET'), s0 + i))
+                        yield [s0, evs]
+
+    def with_continuations(self, case):
+        """random continuations on the normal calls of a random history; None if that is no legal history"""
+        rng = self.rng
+        evs = clone(case[1])
+        for e in evs:
+            if e[0] != 0 or e[1] != 0 or rng.random() < 0.5:
+                continue
+            then = []
+            raw = rng.random() < 0.5
+            for _ in range(rng.randrange(1, 3)):
+                r = rng.random()
+                if raw and r < 0.5:
+                    then.append(self.resend(rng.random() < 0.5))
+                elif r < 0.93:
+                    then.append(self.call(rng.random() < 0.5, rng.choice([0, 0, 1, 2])))
+                else:
+                    then.append(self.ev('L', 0))
+            if raw:
+                e[3] = []
+                e.append({'raw': 1, 'then': then})
+            else:
+                e.append({'then': then})
+        out = [case[0], evs] + case[2:]
+        try:
+            make_plan(out)
+        except ValueError:
+            return None
+        return out
+
     # random histories with up to 8 calls
     def random_history(self):
+        rng = self.rng
+        c = self.plain_history()
+        if rng.random() < 0.3:
+            c = c + [{'cb': rng.choice([1, 2])}]
+        if rng.random() < 0.25:
+            c = self.with_continuations(c) or c
+        return c
+
+    def plain_history(self):
         rng = self.rng
         n = rng.randrange(1, 9)
         r = rng.random()
@@ -510,6 +945,10 @@ def gen_cases(ctx):
         yield from g.concurrent(3, 1, [(1, 1, 1)], with_loss=True)
         yield from g.concurrent(4, 1, [(1, 1, 1, 1), (0, 1, 0, 1)])
     yield from g.kinds()
+    yield from g.handed_back()
+    yield from g.resend_chains(3, 2 if quick else 3)
+    yield from g.chained()
+    yield from g.loss_inside()
     for _ in range(ctx.n(4000, 60000)):
         yield g.random_history()
 
@@ -548,12 +987,20 @@ def run(ctx, res):
                 'calls each followed by every script of <= 2 of {return, error, expiry} (duplicates included), all '
                 'interleavings, all 4 deadline configurations, and scripts <= 1 with loss at every position; (C) %s; '
                 '(D) every declared return signature x every reply shape, every error name x body shape; (E) '
-                'no-reply / unbuildable calls and first serials around 2^32; plus random histories of <= 8 calls. '
+                'no-reply / unbuildable calls and first serials around 2^32; (F) 1-3 calls of every kind while the '
+                'observer callbacks hand a value / an unfired Deferred back to their chain; (G) callers re-entering '
+                'the connection from inside a completion callback: one MethodCallMessage sent again <= 3 times after '
+                'each end by return / error / expiry (inside the callback and, as control%s, after it), with and '
+                'without a bystander call; callbacks issuing <= 2 further calls of every kind, nested once more; loss of the '
+                'connection from inside the callback of each of <= 3 calls; all judged on the flattened history; '
+                'plus random histories of <= 8 calls (30%% with callbacks handing something back, 25%% with random '
+                'continuations). '
                 'Values and signatures inside the exhaustive families are drawn from the seeded PRNG. '
                 'non-trivial = at least one call and one other event; distinct by hash of the case'
                 % (ctx.n(3, 4), ctx.n('3 concurrent calls, scripts <= 1, all interleavings, 3 deadline configurations',
                                       '3 concurrent calls (8 deadline configurations, and loss at every position) and 4 '
-                                      'concurrent calls (2 deadline configurations), scripts <= 1, all interleavings')))
+                                      'concurrent calls (2 deadline configurations), scripts <= 1, all interleavings'),
+                   ctx.n(' for <= 2 re-sends', '')))
     cases = gen_cases(ctx)
     # evaluate in blocks to bound memory
     block = []
